@@ -174,12 +174,22 @@ theorem calculate_initial_population_eq (m : Model α) (params : List (String ×
         funext acc action
         cases action <;> rfl
 
+/-- `get_rebalanced_population` (with its helpers `filter_by_strata`, `get_unique_strat_groups`) is `Run.rebalance` -/
+theorem get_rebalanced_population_eq (comps : List Comp) (pop : List α) (strat : String) (destFilter : Strata)
+    (props : List (String × α)) :
+    get_rebalanced_population comps pop strat destFilter props = rebalance comps strat destFilter props pop := rfl
+
 end
 
 /-! non-vacuity: compartments `[S, I, R]`, `I` stratified into `a`, `b` with split 1/4 : 3/4; a distribution given in another
 order than the compartment names, one stratify action and one rebalance action replayed in order -/
 example : stratify_compartment_values (α := Rat) ⟨[1], [0, 2], [0, 3], [("a", [1]), ("b", [2])], 4⟩ ["a", "b"]
     [("b", 3/4), ("a", 1/4)] [10, 20, 30] = [10, 5, 15, 30] := by decide +kernel
+/-- a rebalance over `vac` restricted to `loc = u`: only the two `S`/`I` groups at `u` are redistributed (3/4 : 1/4), totals kept -/
+example : get_rebalanced_population (α := Rat)
+      [⟨"S", [("loc", "u"), ("vac", "n")]⟩, ⟨"S", [("loc", "u"), ("vac", "y")]⟩, ⟨"S", [("loc", "v"), ("vac", "n")]⟩,
+       ⟨"S", [("loc", "v"), ("vac", "y")]⟩, ⟨"I", [("loc", "u")]⟩]
+      [10, 30, 5, 7, 9] "vac" [("loc", "u")] [("n", 3/4), ("y", 1/4)] = [30, 10, 5, 7, 9] := by decide +kernel
 example : calculate_initial_population (α := Rat) (σ := Rat) (ρ := Rat) ["S", "I"] [("I", 5), ("S", 95)] [.inl 2, .inr 1, .inl 3]
     (fun k v => v.map (· * k)) (fun k v => v.map (· + k)) = [573, 33] := by decide +kernel
 
@@ -187,5 +197,6 @@ example : calculate_initial_population (α := Rat) (σ := Rat) (ρ := Rat) ["S",
 #print axioms fill_eq
 #print axioms replay_eq
 #print axioms calculate_initial_population_eq
+#print axioms get_rebalanced_population_eq
 
 end Summer.Props.C06Source
